@@ -644,6 +644,7 @@ type fqObs struct {
 
 type fqStepIn struct {
 	Act fqAct `json:"act"`
+	Vn  *int  `json:"vn,omitempty"` // replay: the message variant to use
 }
 
 type fqPathIn struct {
@@ -656,6 +657,7 @@ type fqStepOut struct {
 	Act  fqAct  `json:"act"`
 	Obs  fqObs  `json:"obs"`
 	Var  string `json:"var,omitempty"`
+	Vn   int    `json:"vn"`
 	Note string `json:"note,omitempty"`
 }
 
@@ -713,6 +715,8 @@ type fqEnv struct {
 	sent    chan struct{}
 	ranCode bool // code under test ran since the last barrier
 	wg      sync.WaitGroup
+	vn      *int // variant forced by a replay file
+	lastVn  int
 }
 
 const fqSentinelType = filterdb.FilterType(255)
@@ -985,6 +989,10 @@ func (e *fqEnv) observe() (fqObs, error) {
 func (e *fqEnv) message(k string, b int) (wire.Message, string) {
 	u := e.u
 	v := e.rng.Intn(1 << 20)
+	if e.vn != nil {
+		v = *e.vn
+	}
+	e.lastVn = v
 	hash := u.hashOf(b, e.btip)
 	tb := u.foreignBytes
 	if b >= 0 && b <= e.btip {
@@ -1299,6 +1307,7 @@ func fqRunPath(u *vqUniverse, w *vqWorker, p fqPathIn, seed int64) (out fqPathOu
 		return
 	}
 	for _, s := range p.Steps {
+		e.vn, e.lastVn = s.Vn, 0
 		a, variant, err := e.exec(s.Act)
 		if err != nil {
 			out.Error = fmt.Sprintf("step %d (%s): %v", len(out.Steps)+1, s.Act.Op, err)
@@ -1309,7 +1318,7 @@ func fqRunPath(u *vqUniverse, w *vqWorker, p fqPathIn, seed int64) (out fqPathOu
 			out.Error = fmt.Sprintf("observe after step %d: %v", len(out.Steps)+1, err)
 			return
 		}
-		out.Steps = append(out.Steps, fqStepOut{Act: a, Obs: o, Var: variant})
+		out.Steps = append(out.Steps, fqStepOut{Act: a, Obs: o, Var: variant, Vn: e.lastVn})
 	}
 	return
 }
@@ -1459,6 +1468,7 @@ type bqObs struct {
 
 type bqStepIn struct {
 	Act bqAct `json:"act"`
+	Vn  *int  `json:"vn,omitempty"`
 }
 
 type bqPathIn struct {
@@ -1471,6 +1481,7 @@ type bqStepOut struct {
 	Act  bqAct  `json:"act"`
 	Obs  bqObs  `json:"obs"`
 	Var  string `json:"var,omitempty"`
+	Vn   int    `json:"vn"`
 	Note string `json:"note,omitempty"`
 }
 
@@ -1499,6 +1510,8 @@ type bqEnv struct {
 	rng   *rand.Rand
 	done  chan struct{}
 	wg    sync.WaitGroup
+	vn     *int
+	lastVn int
 }
 
 func bqPeer(p int) string { return fmt.Sprintf("10.0.%d.%d:18444", p, p) }
@@ -1639,6 +1652,10 @@ func (e *bqEnv) observe() (bqObs, error) {
 func (e *bqEnv) message(k string, b, tgt int) (wire.Message, string) {
 	u := e.u
 	v := e.rng.Intn(1 << 20)
+	if e.vn != nil {
+		v = *e.vn
+	}
+	e.lastVn = v
 	g := &vqGen{r: e.rng}
 	base := func() *wire.MsgBlock { return u.blockOf(tgt, e.nb).Copy() }
 	switch k {
@@ -1926,6 +1943,7 @@ func bqRunPath(u *vqUniverse, w *vqWorker, p bqPathIn, seed int64) (out bqPathOu
 		return
 	}
 	for _, s := range p.Steps {
+		e.vn, e.lastVn = s.Vn, 0
 		a, variant, err := e.exec(s.Act)
 		if err != nil {
 			out.Error = fmt.Sprintf("step %d (%s): %v", len(out.Steps)+1, s.Act.Op, err)
@@ -1936,7 +1954,7 @@ func bqRunPath(u *vqUniverse, w *vqWorker, p bqPathIn, seed int64) (out bqPathOu
 			out.Error = fmt.Sprintf("observe after step %d: %v", len(out.Steps)+1, err)
 			return
 		}
-		out.Steps = append(out.Steps, bqStepOut{Act: a, Obs: o, Var: variant})
+		out.Steps = append(out.Steps, bqStepOut{Act: a, Obs: o, Var: variant, Vn: e.lastVn})
 	}
 	return
 }
